@@ -42,6 +42,7 @@ fn rename_hidden(t: &T, m: &BTreeMap<u32, u32>) -> T {
     match t {
         T::V(k) => T::V(*m.get(k).unwrap_or(k)),
         T::Cons(h, tl) => T::cons(rename_hidden(h, m), rename_hidden(tl, m)),
+        T::Cmp(k, a, b) => T::cmp(*k, rename_hidden(a, m), rename_hidden(b, m)),
         other => other.clone(),
     }
 }
